@@ -47,9 +47,10 @@ typedef struct {
 	int seterr;
 } mlist_t;
 
-enum { LO_A, LO_B, LO_BAD, LO_SET, LO_NONJSON, LO_EMPTYKEYS, LO_FREE0, LO_FREEMID, LO_FREELAST, LO_FREEN, LO_FREEMAX, LO_FREEBAD, LO_FREEALL, LO_CLEAR, LO_FREEALIAS, NLO };
+enum { LO_A, LO_B, LO_BAD, LO_SET, LO_NONJSON, LO_EMPTYKEYS, LO_FREE0, LO_FREEMID, LO_FREELAST, LO_FREEN, LO_FREEMAX, LO_FREEBAD, LO_FREEALL, LO_CLEAR, LO_FREEALIAS, LO_BADALG, NLO };
 static const char *lo_name[NLO] = { "load(A oct kid=k1)", "load(B EC kid=k1)", "load(bad oct kid=kb)", "load(set[k2,bad ZZ,RSA k1])", "load(non-JSON)", "load({keys:[]})",
-				    "free(0)", "free(mid)", "free(last)", "free(n)", "free(SIZE_MAX)", "free_bad", "free_all", "error_clear", "free(2^32)" };
+				    "free(0)", "free(mid)", "free(last)", "free(n)", "free(SIZE_MAX)", "free_bad", "free_all", "error_clear", "free(2^32)", "load(set[oct with numeric alg, EC with boolean alg])" };
+static char *DOC_BADALG;   /* items that are refused late: they already own their key material (oct bytes, EVP_PKEY and PEM) */
 static char *DOC_A, *DOC_B, *DOC_SET;
 static const char DOC_BAD[] = "{\"kty\":\"oct\",\"kid\":\"kb\"}";   /* errored item that still carries a kid */
 static const char DOC_NONJSON[] = "{\"keys\":[";
@@ -64,6 +65,19 @@ static void c16_docs(void)
 	char *o = vk_oct_jwk(k, 32, NULL, "k2"), *r = vk_jwk_text(vk_get("rsa2048a"), 0, "RS256", "k1");
 	DOC_SET = malloc(strlen(o) + strlen(r) + 200);
 	sprintf(DOC_SET, "{\"keys\":[%s,{\"kty\":\"ZZ\",\"kid\":\"kz\"},%s]}", o, r);
+	{
+		json_t *jo = json_loads(o, 0, NULL), *je = json_deep_copy(vk_get("p256b")->priv_jwk);
+		json_object_set_new(jo, "alg", json_integer(7));
+		json_object_set_new(je, "alg", json_true());
+		json_object_set_new(je, "kid", json_string("ke"));
+		char *a = tok_jdump(jo, JSON_COMPACT), *b = tok_jdump(je, JSON_COMPACT);
+		DOC_BADALG = malloc(strlen(a) + strlen(b) + 32);
+		sprintf(DOC_BADALG, "{\"keys\":[%s,%s]}", a, b);
+		free(a);
+		free(b);
+		json_decref(jo);
+		json_decref(je);
+	}
 	free(o);
 	free(r);
 }
@@ -95,6 +109,11 @@ static long model_list_step(mlist_t *m, int op)
 		mlist_push(m, "k1", JWK_KEY_TYPE_RSA, 0);
 		return -1;
 	case LO_NONJSON: m->seterr = 1; return -1;
+	case LO_BADALG:
+		/* "Invalid alg type" is found after the key itself was built and before kid is read */
+		mlist_push(m, "", JWK_KEY_TYPE_OCT, 1);
+		mlist_push(m, "", JWK_KEY_TYPE_EC, 1);
+		return -1;
 	case LO_EMPTYKEYS: return -1;
 	case LO_FREE0: i = 0; goto del;
 	case LO_FREEMID: i = m->n / 2; goto del;
@@ -135,6 +154,7 @@ static long impl_list_step(jwk_set_t *s, int op)
 	case LO_SET: jwks_load(s, DOC_SET); return -1;
 	case LO_NONJSON: jwks_load(s, DOC_NONJSON); return -1;
 	case LO_EMPTYKEYS: jwks_load(s, DOC_EMPTYKEYS); return -1;
+	case LO_BADALG: jwks_load(s, DOC_BADALG); return -1;
 	case LO_FREE0: return jwks_item_free(s, 0);
 	case LO_FREEMID: return jwks_item_free(s, n / 2);
 	case LO_FREELAST: return jwks_item_free(s, n ? n - 1 : (size_t)-1);
